@@ -265,7 +265,14 @@ def run(ctx):
     shs = pm.shapes(k)
     ctx.explore('specs-' + ctx.tier, shs, 'eval_spec', chunk=8, setup_arg=ctx.thorough,
                 space_size=shape.space_size(pm.MENUS, k))
-    fixed = [('fixed',) + f for f in FIXED] + [('gmt',) + g for g in GMTLIKE] + [('malformed', m) for m in MALFORMED] + \
+    # every proper prefix of a few valid strings that stops right after a separator (nothing can follow a separator
+    # but the field it announces, so each of them lacks a field)
+    cut = []
+    for valid in ('EST5EDT,M3.2.0/2,M11.1.0/2', 'CET-1CEST,M3.5.0,M10.5.0/3', 'AAA+3BBB-2:30,J60/1:30,300/23', 'NST3:30NDT2:30,M3.2.0/0:01,M11.1.0/0:01'):
+        for i in range(1, len(valid)):
+            if valid[i - 1] in ',/.:+-' and valid[:i] not in cut:
+                cut.append(valid[:i])
+    fixed = [('fixed',) + f for f in FIXED] + [('gmt',) + g for g in GMTLIKE] + [('malformed', m) for m in MALFORMED + cut] + \
             [('name-only', nm) for nm in ('UTC', 'GMT', 'EST', 'Z', 'utc', 'UT')]
     ctx.explore('fixed-gmt-malformed', fixed, 'eval_fixed', serial=True)
     ctx.coverage_extra.update({
